@@ -56,6 +56,7 @@ theorem rejected_vAddQ_of (s a : Obj)
     refine rej_bind (fun _ _ => ?_)
     refine rej_bind (fun _ _ => ?_)
     refine rej_bind (fun _ _ => ?_)
+    refine rej_bind (fun _ _ => ?_)
     unfold addDerivs
     obtain ⟨e', he'⟩ := filterMapE_error (addStep s a) s.derivs d .valueError hd (by simp [addStep, he, hne])
     rw [he']
